@@ -141,7 +141,7 @@ fn run_op(op: &str, h: &Hex, a: usize, b: usize, b_raw: i64, other: &[u8]) -> Va
                 any |= e;
             }
             if all != any {
-                json!({"k": "bool", "v": "representation-dependent"})
+                json!({"k": "bool-depends-on-representation"})
             } else {
                 json!({"k": "bool", "v": all})
             }
